@@ -125,6 +125,48 @@ func genC11(p *plan.Plan, r *plan.Rng, tier string) {
 	case 2:
 		addHandleGroups(p, r, &next, 1, 1, 0)
 	}
+	// option-leak probes: a call with an option, and calls of the same family
+	// without it on arguments for which the option would make a difference
+	for k := r.Range(1, 2); k > 0; k-- {
+		if r.Bool() {
+			dt := []string{"Small", "Tagged", "MapStrInt", "MapStrIface", "Nested", "CaseColl", "Wide"}[r.Intn(7)]
+			a := plan.Step{Op: "unmarshal", T: pickType(r, decodeAllTypes), Opts: []string{"firstwin"}}
+			a.Doc = docFor(r, a.T, 0, 1)
+			if r.Chance(1, 3) {
+				a.Op = "unmarshal_ctx"
+				a.S1 = "leak-ctx"
+			}
+			p.Sessions = append(p.Sessions, one(id("o"), a))
+			ti := lookupType(dt)
+			dup := dupKeys(stdDoc(ti, int64(r.U64()>>8)), stdDoc(ti, int64(r.U64()>>8)))
+			for _, op := range []string{"unmarshal", "unmarshal_ctx", "unmarshal_noescape"} {
+				if r.Chance(2, 3) {
+					p.Sessions = append(p.Sessions, one(id("o"), plan.Step{Op: op, T: dt, Doc: dup, S1: "probe"}))
+				}
+			}
+			if r.Chance(1, 2) {
+				s := plan.Session{ID: id("O")}
+				s.Steps = append(s.Steps, plan.Step{Op: "dec_new", H: "d", Reader: &plan.Reader{Data: append(append([]byte(nil), dup...), '\n')}}, plan.Step{Op: "dec_decode", H: "d", T: dt})
+				p.Sessions = append(p.Sessions, s)
+			}
+		} else {
+			et := []string{"MapStrString", "MapStrInt", "MapStrIface", "Tagged", "String", "SliceString", "Nested", "WithCB", "MapStrSmall"}[r.Intn(9)]
+			opt := [][]string{{"unordered"}, {"nohtml"}, {"noutf8"}, {"color_default"}, {"color_custom"}, {"debug"}, {"debugdot"}, {"unordered", "nohtml", "color_custom"}}[r.Intn(8)]
+			a := plan.Step{Op: []string{"marshal", "marshal_indent", "marshal_ctx"}[r.Intn(3)], T: pickType(r, encodeTypes), V: valueSeed(r, 0, 1), Opts: opt, S1: "", S2: " "}
+			if a.Op == "marshal_ctx" {
+				a.S1 = "leak-ctx"
+			}
+			p.Sessions = append(p.Sessions, one(id("o"), a))
+			for _, op := range []string{"marshal", "marshal_indent", "marshal_ctx", "marshal_noescape"} {
+				if r.Chance(2, 3) {
+					p.Sessions = append(p.Sessions, one(id("o"), plan.Step{Op: op, T: et, V: valueSeed(r, 0, 1), S2: "\t"}))
+				}
+			}
+			if r.Chance(1, 2) {
+				p.Sessions = append(p.Sessions, encoderSession(r, id("O"), false))
+			}
+		}
+	}
 	interleave(p, r, 1, 12)
 	p.Config.Faults = []string{"cb_error", "cb_panic", "cb_reenter", "cb_gc", "cb_stackgrow", "gc_event", "writer_err", "reader faults", "syntax errors", "option switches"}
 }
@@ -246,7 +288,8 @@ func genC10(p *plan.Plan, r *plan.Rng, tier string) {
 	next := 0
 	id := func(prefix string) string { next++; return fmt.Sprintf("%s%d", prefix, next) }
 	// types: a few shared by all tasks (first use races), mostly generated ones
-	shared := []string{fmt.Sprintf("G%04d", r.Intn(len(genTypes))), fmt.Sprintf("G%04d", r.Intn(len(genTypes))), pickType(r, encodeTypes)}
+	shared := []string{fmt.Sprintf("G%04d", r.Intn(len(genTypes))), fmt.Sprintf("G%04d", r.Intn(len(genTypes))), pickType(r, encodeTypes),
+		reflectTypeNames[r.Intn(len(reflectTypeNames))], reflectTypeNames[r.Intn(len(reflectTypeNames))]}
 	for i := 0; i < n; i++ {
 		s := plan.Session{ID: id("t")}
 		for k := r.Range(1, 5); k > 0; k-- {
@@ -347,6 +390,16 @@ func genC06(p *plan.Plan, r *plan.Rng, tier string) {
 		p.Sessions = append(p.Sessions, s)
 		return
 	}
+	if idx%5 == 4 {
+		// the stream decoder under enumerated chunkings: reuse C09's families
+		// (the worker reports only panics and non-termination for C06)
+		q := &plan.Plan{Index: r.Intn(len(shortDocs) + len(snippets) + 200)}
+		genC09(q, r, "quick")
+		p.Mode = "stream"
+		p.Stream = q.Stream
+		p.Note = "stream families of C09 plan " + fmt.Sprint(q.Index) + " (oracles: no panic, termination)"
+		return
+	}
 	n := r.Range(4, 14)
 	for i := 0; i < n; i++ {
 		switch k := r.Intn(20); {
@@ -422,6 +475,9 @@ func genC14(p *plan.Plan, r *plan.Rng, tier string) {
 		s := plan.Session{ID: fmt.Sprintf("t%d", t)}
 		for k := r.Range(2, 6); k > 0; k-- {
 			ty := fmt.Sprintf("G%04d", base+r.Intn(12))
+			if r.Chance(1, 3) {
+				ty = reflectTypeNames[r.Intn(len(reflectTypeNames))]
+			}
 			if r.Bool() {
 				s.Steps = append(s.Steps, plan.Step{Op: "marshal", T: ty, V: valueSeed(r, 0, 1)})
 			} else {
